@@ -89,7 +89,7 @@ class PaginationBorders(Contract):
     truth_vars = {"has_column_headers", "has_footnote_on_page", "has_source_on_page", "footnote_as_table_on_last", "source_as_table_on_last",
                   "has_border_top", "footnote_table_on_page", "source_table_on_page"}
     variants = [f"{k}.{sh}" for k in ("first_notlast", "middle", "last_notfirst", "only_page") for sh in ("rowsN", "rows1")]
-    loops_optional = {5, 6, 7}        # which of the three column loops is reachable depends on the page kind (variant)
+    loops_optional = {6, 7, 8}        # which of the three column loops is reachable depends on the page kind (variant)
     merge_ifs = True
     max_paths = 20000
     frame = "strict"
@@ -143,7 +143,24 @@ class PaginationBorders(Contract):
         rpage = c.alloc(RecObj("RTFPage", {"border_first": pbf, "border_last": pbl, "page_footnote": pfn, "page_source": psrc}, fresh=False))
         nh = c.fresh("n_headers", T.Int)
         c.requires("n_headers_nonneg", nh >= 0)
-        headers = c.alloc(ListObj(length=nh, get=lambda j: None, fresh=False))
+        # column headers: entry k is None (HN) or a header whose own text is unset (TN) or set; a header row is RENDERED for a header that
+        # has text or - for a single body with as_colheader - gets the column names (unit RenderColumnHeaders)
+        HN = z3.Function(fresh_name("header_is_none"), z3.IntSort(), z3.BoolSort())
+        TN = z3.Function(fresh_name("header_text_is_none"), z3.IntSort(), z3.BoolSort())
+        from pyvc.state import lazy_alloc as _lazy
+        _hm = {}
+
+        def _hdr(j):
+            key = str(z3.simplify(to_z3(j)))
+            if key not in _hm:
+                txt = _lazy(ListObj(length=z3.Int(fresh_name("n_labels")), get=lambda q: z3.Const(fresh_name("label"), StrSort), fresh=False))
+                _hm[key] = Opt(HN(to_z3(j)), _lazy(RecObj("RTFColumnHeader", {"text": Opt(TN(to_z3(j)), txt)}, fresh=False)))
+            return _hm[key]
+        headers = c.alloc(ListObj(length=nh, get=_hdr, fresh=False))
+        as_colheader = c.fresh("as_colheader", T.Bool)
+        c.obj(body).fields["as_colheader"] = as_colheader
+        kq = z3.Int("hk")
+        c.v.update(header_row_rendered=z3.Exists([kq], And(0 <= kq, kq < nh, Not(HN(kq)), Or(Not(TN(kq)), as_colheader))))
 
         def comp_rec(name):
             isn = z3.Bool(fresh_name(name + ".isnone"))
@@ -178,9 +195,12 @@ class PaginationBorders(Contract):
         src_none, src_txt, src_tab = v["src"]
         fn_on = And(Not(fn_none), has_text(fn_txt), shown(v["pfn"]))
         src_on = And(Not(src_none), has_text(src_txt), shown(v["psrc"]))
-        fn_tab_last = And(Not(fn_none), has_text(fn_txt), fn_tab, Or(v["pfn"] == lit("last"), v["pfn"] == lit("all")))
-        src_tab_last = And(Not(src_none), has_text(src_txt), src_tab, Or(v["psrc"] == lit("last"), v["psrc"] == lit("all")))
-        has_headers = v["nh"] > 0
+        # property: the document's last table row is the footnote / source row "when one is rendered as a table there", i.e. when the
+        # component is SHOWN on this (last) page - whatever placement keyword makes it so (a one-page document shows 'first' components too)
+        fn_tab_last = And(fn_on, fn_tab)
+        src_tab_last = And(src_on, src_tab)
+        # "there is a column header" in the property's sense: a header ROW is rendered above the body (not merely: a header object exists)
+        has_headers = v["header_row_rendered"]
         bf, btop = v["bf"], v["btop"]
 
         def user_top(r, col):
@@ -265,10 +285,11 @@ class PaginationBorders(Contract):
             return sty
         # loop ordinals in _apply_pagination_borders: 0 model_fields loop, 1 row re-selection comprehension, 2/3 border fill comprehensions,
         # 4 first-page loop, 5 not-last bottom loop, 6 last-page bottom loop;  inlined _apply_body_border_first: loops #0 (list branch), #1 (scalar branch)
+        # (ordinal 5 is the generator expression of `has_column_headers = any(...)`: evaluated as a quantifier, no invariant)
         self.loops = {
-            5: col_loop("border_top", zero, lambda vv: (lambda col: pbf.payload)),
-            6: col_loop("border_bottom", lastrow, lambda vv: (lambda col: bl.cell(IntVal(0), IntVal(0)))),
-            7: col_loop("border_bottom", lastrow, lambda vv: (lambda col: pbl.payload)),
+            6: col_loop("border_top", zero, lambda vv: (lambda col: pbf.payload)),
+            7: col_loop("border_bottom", lastrow, lambda vv: (lambda col: bl.cell(IntVal(0), IntVal(0)))),
+            8: col_loop("border_bottom", lastrow, lambda vv: (lambda col: pbl.payload)),
             "PageFeatureProcessor._apply_body_border_first#0": col_loop("border_top", zero, body_first_style),
         }
 
